@@ -612,6 +612,11 @@ func (s *Scope) evalCall(e ECall) Term {
 	if i := strings.Index(fname, "$"); i > 0 {
 		base, idx := fname[:i], fname[i+1:]
 		if fi := x.P.Funcs[fpkg+"."+base]; fi != nil {
+			if fc := x.P.Contracts.Funcs[fi.Key]; fc != nil && fc.Flags["pure"] {
+				var n int
+				fmt.Sscanf(idx, "%d", &n)
+				return x.pureUFk(fi, Term{}, args(), n)
+			}
 			tf := x.termFunOf(fi)
 			var n int
 			fmt.Sscanf(idx, "%d", &n)
@@ -769,6 +774,22 @@ func (x *Exec) defineSpec(sf *SpecFunc) string {
 		x.W.defSeen[name] = true // allow self reference
 		body := x.coerce(sc.Eval(sf.Body), ret.sort)
 		x.W.defs = append(x.W.defs, fmt.Sprintf("(define-fun-rec %s (%s) %s %s)", name, strings.Join(formals, " "), ret.sort, body.S))
+		if sf.Prefix && len(sf.Params) == 2 {
+			// stability facts for updates that happened before this fold was first mentioned
+			so := x.resolveTypeName(sf.Params[0].Type, sf.Pkg).sort
+			for _, pp := range x.W.pendingPrefix {
+				if pp[0].Sort == so {
+					x.W.Facts = append(x.W.Facts, fmt.Sprintf("(= (%s %s %s) (%s %s %s))", name, pp[0].S, pp[2].S, name, pp[1].S, pp[2].S))
+				}
+			}
+			if isSumShape(sf) {
+				for _, pp := range x.W.pendingPerm {
+					if pp[0].Sort == so {
+						x.W.Facts = append(x.W.Facts, fmt.Sprintf("(= (%s %s %s) (%s %s %s))", name, pp[0].S, pp[2].S, name, pp[1].S, pp[2].S))
+					}
+				}
+			}
+		}
 		return name
 	}
 	body := x.coerce(sc.Eval(sf.Body), ret.sort)
@@ -778,10 +799,15 @@ func (x *Exec) defineSpec(sf *SpecFunc) string {
 
 // pureUF: application of the uninterpreted function that stands for a Go function whose contract is flagged pure
 // (the same symbol call-by-contract uses for its result).
-func (x *Exec) pureUF(fi *FuncInfo, recv Term, args []Term) Term {
+func (x *Exec) pureUF(fi *FuncInfo, recv Term, args []Term) Term { return x.pureUFk(fi, recv, args, 0) }
+
+func (x *Exec) pureUFk(fi *FuncInfo, recv Term, args []Term, k int) Term {
 	sig := fi.Obj.Type().(*types.Signature)
-	rt := sig.Results().At(0).Type()
-	fname := fmt.Sprintf("uf_%s$0", sanitize(fi.Key))
+	if k >= sig.Results().Len() {
+		unsupported("result index %d of %s", k, fi.Key)
+	}
+	rt := sig.Results().At(k).Type()
+	fname := fmt.Sprintf("uf_%s$%d", sanitize(fi.Key), k)
 	var as []Term
 	var sorts []Sort
 	if sig.Recv() != nil {
@@ -959,9 +985,10 @@ func (x *Exec) prefixFacts(newSeq, oldSeq, n Term) {
 	if x.termMode || x.noFacts > 0 || x.unroll > 0 {
 		return
 	}
+	x.W.pendingPrefix = append(x.W.pendingPrefix, [3]Term{newSeq, oldSeq, n})
 	for _, sf := range x.P.Contracts.Specs {
-		if !sf.Prefix {
-			continue
+		if !sf.Prefix || !x.W.defSeen["spec_"+sf.Name] {
+			continue // only folds this unit actually talks about (others are added if and when they get defined)
 		}
 		tr := func() (r typeRes) {
 			defer func() {
@@ -1012,8 +1039,9 @@ func (x *Exec) permutationFacts(newSeq, oldSeq, n Term) {
 	if x.termMode || x.noFacts > 0 {
 		return
 	}
+	x.W.pendingPerm = append(x.W.pendingPerm, [3]Term{newSeq, oldSeq, n})
 	for _, sf := range x.P.Contracts.Specs {
-		if !isSumShape(sf) {
+		if !isSumShape(sf) || !x.W.defSeen["spec_"+sf.Name] {
 			continue
 		}
 		tr := func() (r typeRes) {
@@ -1083,7 +1111,7 @@ func (x *Exec) fieldFrameFacts(newSeq, oldSeq Term, field string) {
 		return
 	}
 	for _, sf := range x.P.Contracts.Specs {
-		if !sf.Prefix || mentionsField(sf.Body, field) || usesWholeElement(sf) {
+		if !sf.Prefix || mentionsField(sf.Body, field) || usesWholeElement(sf) || !x.W.defSeen["spec_"+sf.Name] {
 			continue
 		}
 		tr := func() (r typeRes) {
